@@ -85,8 +85,16 @@ impl Receiver {
 /// A handle to submit work to be done to a worker receiver
 ///
 /// Multiple Sender handles can be created with `.clone()`.
-#[derive(Clone)]
 pub struct Sender(Arc<State>);
+
+impl Clone for Sender {
+    #[inline]
+    fn clone(&self) -> Self {
+        // the new handle is created from a live one, so the count cannot be observed at zero
+        self.0.senders.fetch_add(1, Ordering::Relaxed);
+        Self(self.0.clone())
+    }
+}
 
 impl Sender {
     /// Submits `count` jobs to be executed by the worker receiver
